@@ -12,7 +12,8 @@ Script lines (numbers are rationals `p/q`; seconds are relative to the start of 
                    <clk>:c                clk.clear()
                    <clk>:T:<v>            clk.tempo = v
                    +:<dt>                 the task takes dt of physical time
-        result:    r:<delta> (return/yield a number) | d (return None / end) | x (raise) | n (non-number)
+        result:    r:<delta> (return/yield a number) | d (return None / end) | x (raise) |
+                   n (a str) | bt (True) | bf (False) | o (an object): only a number re-schedules
   new <i> <rate>                         t<i> = TempoClock(rate)
   adv <dt>
   op <m|o> <clk> s <key> <task> | q <delta> <task> | c | T <v> | stop
@@ -37,6 +38,9 @@ _S = {}
 class TaskFailure(Exception):
     pass
 
+
+NONNUM = {'n': lambda: 'str', 'bt': lambda: True, 'bf': lambda: False, 'o': object}
+WATCHDOG = 1000       # awakes of one task within one script line: beyond that it is a tight loop
 
 EXC = [ValueError, KeyError, ZeroDivisionError, TaskFailure, RuntimeError]
 
@@ -96,6 +100,7 @@ class Case:
         self.order = ['s', 'a']
         self.tasks = {}
         self.halves = []
+        self.awakes = {}           # per script line: awakes of each task (watchdog)
         self.paused = None         # rec of the clock thread stopped inside a task step
         self.blocked = []          # (rec, result list) of calls waiting for the lock
         self.mark = len(vt.log)
@@ -180,8 +185,8 @@ class Case:
                     return num(res[2:])
                 if res == 'x':
                     raise EXC[tid % len(EXC)](f'task{tid}')
-                if res == 'n':
-                    return 'str'
+                if res in NONNUM:
+                    return NONNUM[res]()
                 return None
             f.__qualname__ = f'task{tid}'
             obj = self.clk.fn.Function(f)
@@ -194,8 +199,8 @@ class Case:
                         inval = yield num(res[2:])
                     elif res == 'x':
                         raise EXC[tid % len(EXC)](f'task{tid}')
-                    elif res == 'n':
-                        inval = yield 'str'
+                    elif res in NONNUM:
+                        inval = yield NONNUM[res]()
                     else:
                         return
             g.__qualname__ = f'task{tid}'
@@ -204,6 +209,12 @@ class Case:
 
         def awake(clock):                # observe every awake, also of a Routine that has ended
             k = case.cname(clock)
+            n = case.awakes.get(tid, 0) + 1
+            case.awakes[tid] = n
+            if n > WATCHDOG:             # break the loop: raising means "not re-scheduled"
+                if n == WATCHDOG + 1:
+                    case.vt.log.append(('spin', k, tid))
+                raise RuntimeError(f'watchdog task{tid}')
             case.vt.log.append(('awake', k, tid, clock.seconds - case.base,
                                 clock.beats - case.off(k), case.vt.now - case.base))
             return inner(clock)
@@ -262,6 +273,8 @@ class Case:
                 out.append(f'X{tname[e[1]]}')
             elif e[0] == 'died':
                 out.append(f'D{tname.get(e[1], e[1])}:{e[2]}')
+            elif e[0] == 'spin':
+                out.append(f'SPIN{e[1]}:{e[2]}')
             elif e[0] == 'awake':
                 out.append(f'A{e[1]}:{e[2]}:{fr(e[3])}:{fr(e[4])}:{fr(e[5])}')
             elif e[0] == 'error':
@@ -361,6 +374,7 @@ class Case:
     def line(self, ln):
         w = ln.split()
         pre = []
+        self.awakes = {}
         try:
             self._auto = False
             if self.paused is not None and not self.keeps_pause(w):
